@@ -342,7 +342,7 @@ def oracle_which_layouts(ctx, pexpect):
 
 PROBE = r'''
 import sys, os, json, signal, termios, struct, fcntl
-r = {"argv": sys.argv[1:], "cwd": os.getcwd(), "env": {k: os.environ.get(k) for k in ("C13_A", "C13_B", "PATH", "HOME")}}
+r = {"argv": sys.argv[1:], "cwd": os.getcwd(), "env": {k: os.environ.get(k) for k in ("C13_A", "C13_B", "PATH", "HOME", "C13_PARENT_ONLY")}, "nenv": len(os.environ)}
 try:
     r["winsize"] = list(struct.unpack("HHHH", fcntl.ioctl(0, termios.TIOCGWINSZ, b"\0" * 8))[:2])
     r["echo"] = bool(termios.tcgetattr(0)[3] & termios.ECHO)
@@ -404,11 +404,17 @@ def oracle_launch(ctx, pexpect, n):
                 break
         # PopenSpawn: cwd / env / argv
         from pexpect.popen_spawn import PopenSpawn
-        for cf in configs[:max(2, n // 3)]:
+        for k_pop, cf in enumerate(configs[:max(2, n // 3)]):
+            cf = dict(cf, env=cf['env'] or k_pop == 0)
             tried += 1
-            env = dict(os.environ, C13_A='p%d' % tried) if cf['env'] else None
-            p = PopenSpawn([sys.executable, '-c', PROBE] + cf['args'], cwd=cwd if cf['cwd'] else None, env=env,
-                           timeout=30, encoding='utf-8')
+            # the requested environment is the WHOLE environment of the child: a variable only the parent has must not show up
+            os.environ['C13_PARENT_ONLY'] = 'leak'
+            env = {'C13_A': 'p%d' % tried, 'PATH': os.environ.get('PATH', os.defpath), 'HOME': '/nonexistent'} if cf['env'] else None
+            try:
+                p = PopenSpawn([sys.executable, '-c', PROBE] + cf['args'], cwd=cwd if cf['cwd'] else None, env=env,
+                               timeout=30, encoding='utf-8')
+            finally:
+                del os.environ['C13_PARENT_ONLY']
             p.expect(pexpect.EOF)
             m = re.search(r'<<(.*)>>', p.before, re.S)
             rep = json.loads(m.group(1)) if m else None
@@ -420,8 +426,8 @@ def oracle_launch(ctx, pexpect, n):
                 bad = 'argv %r != %r' % (rep['argv'], cf['args'])
             elif cf['cwd'] and os.path.realpath(rep['cwd']) != os.path.realpath(cwd):
                 bad = 'cwd %r != %r' % (rep['cwd'], cwd)
-            elif env is not None and rep['env'].get('C13_A') != env['C13_A']:
-                bad = 'env'
+            elif env is not None and (rep['env'].get('C13_A') != env['C13_A'] or rep['env'].get('C13_PARENT_ONLY') is not None or rep['env'].get('HOME') != '/nonexistent'):
+                bad = 'environment: the child saw C13_A=%r HOME=%r C13_PARENT_ONLY=%r, requested exactly %r' % (rep['env'].get('C13_A'), rep['env'].get('HOME'), rep['env'].get('C13_PARENT_ONLY'), env)
             if bad:
                 ctx.hit('C13/launch-popen', 'PopenSpawn launch fidelity: ' + bad, {'config': cf, 'report': rep})
                 break
